@@ -191,6 +191,11 @@ impl Axecutor {
         addr
     }
 
+    /// Effective address without the segment base, as computed by LEA
+    pub(crate) fn mem_addr_without_segment(&self, o: MemOperand) -> u64 {
+        self.mem_addr(MemOperand { segment: None, ..o })
+    }
+
     pub(crate) fn instruction_operands_2(
         &self,
         i: Instruction,
